@@ -1,11 +1,719 @@
-//! C11 — not implemented yet (stub).
-use crate::engine::Ctx;
-use serde_json::Value;
+//! C11 — independence from evaluation history and thread schedule.
+//!
+//! Stateful / model-based: a history is a sequence of operations on up to three state
+//! handles (evaluate a getter on a handle, clone one handle into another). The reference
+//! model is "every getter evaluated on its own fresh state". Schedules: whole getter calls are
+//! serialised by the cache mutex, so real-thread runs on a shared state must return the
+//! reference values as well.
+use crate::engine::{Ctx, Gen, Obs, PanicPolicy, PartCfg};
+use crate::model::*;
+use feos::core::{Contributions, PhaseDiagram, ReferenceSystem, SolverOptions, State};
+use quantity::*;
+use serde::{Deserialize, Serialize};
+use serde_json::{json, Value};
+use std::sync::{Arc, Barrier};
 
-pub fn run(_ctx: &Ctx) {
-    panic!("C11: check not implemented yet");
+type S = State<FullModel>;
+use Contributions::{IdealGas as IG, Residual as RES, Total as TOT};
+
+fn sel(k: usize) -> Contributions {
+    [TOT, RES, IG][k % 3]
 }
 
-pub fn replay(_ctx: &Ctx, _part: &str, _case: &Value) -> bool {
-    panic!("C11: check not implemented yet");
+/// Number of getters known to `eval`.
+pub const N_GETTERS: usize = 66;
+/// The 12 "atomic" getters: together they touch every cache key of the system exactly through
+/// one kind of dual number each.
+pub const ATOMIC: [usize; 12] = [0, 1, 2, 3, 4, 5, 6, 7, 8, 9, 10, 11];
+
+fn v1(x: f64) -> Vec<f64> {
+    vec![x]
+}
+
+/// Evaluate getter `g` (with auxiliary index `aux`) on a state; flattened result.
+pub fn eval(s: &S, g: usize, aux: usize, has_mw: bool, has_transport: bool) -> Option<Vec<f64>> {
+    let n = s.moles.len();
+    let i = aux % n;
+    let c = sel(aux);
+    Some(match g {
+        // --- atomic: one cache key class each ---
+        0 => v1(s.residual_helmholtz_energy().to_reduced()), // Zeroth (f64)
+        1 => v1(s.pressure(RES).to_reduced()),               // First(DV) Dual64
+        2 => v1(s.residual_entropy().to_reduced()),          // First(DT)
+        3 => s.residual_chemical_potential().to_reduced().to_vec(), // First(DN(i))
+        4 => v1(s.dp_dv(RES).to_reduced()),                  // Second(DV) Dual2
+        5 => v1(s.ds_res_dt().to_reduced()),                 // Second(DT)
+        6 => v1(s.dp_dt(RES).to_reduced()),                  // Mixed(DV,DT) HyperDual
+        7 => s.dp_dni(RES).to_reduced().to_vec(),            // Mixed(DV,DN)
+        8 => s.dmu_res_dt().to_reduced().to_vec(),           // Mixed(DT,DN)
+        9 => s.dmu_dni(RES).to_reduced().iter().copied().collect(), // Mixed(DN,DN)
+        10 => v1(s.d2p_dv2(RES).to_reduced()),               // Third(DV) Dual3
+        11 => v1(s.d2s_res_dt2().to_reduced()),              // Third(DT)
+        // --- composite / selector getters ---
+        12 => v1(s.pressure(c).to_reduced()),
+        13 => v1(s.compressibility(c)),
+        14 => v1(s.dp_dv(c).to_reduced()),
+        15 => v1(s.dp_drho(c).to_reduced()),
+        16 => v1(s.dp_dt(c).to_reduced()),
+        17 => s.dp_dni(c).to_reduced().to_vec(),
+        18 => v1(s.d2p_dv2(c).to_reduced()),
+        19 => v1(s.d2p_drho2(c).to_reduced()),
+        20 => v1(s.structure_factor()),
+        21 => s.partial_molar_volume().to_reduced().to_vec(),
+        22 => s.dmu_dni(c).to_reduced().iter().copied().collect(),
+        23 => v1(s.isothermal_compressibility().to_reduced()),
+        24 => s.ln_phi().to_vec(),
+        25 => s.dln_phi_dt().to_reduced().to_vec(),
+        26 => s.dln_phi_dp().to_reduced().to_vec(),
+        27 => (s.dln_phi_dnj() * Moles::from_reduced(1.0)).into_value().iter().copied().collect(),
+        28 => {
+            if n < 2 {
+                return None;
+            }
+            s.thermodynamic_factor().iter().copied().collect()
+        }
+        29 => v1(s.residual_molar_isochoric_heat_capacity().to_reduced()),
+        30 => v1(s.dc_v_res_dt().to_reduced()),
+        31 => v1(s.residual_molar_isobaric_heat_capacity().to_reduced()),
+        32 => v1(s.residual_enthalpy().to_reduced()),
+        33 => v1(s.residual_internal_energy().to_reduced()),
+        34 => v1(s.residual_gibbs_energy().to_reduced()),
+        35 => s.pressure_contributions().iter().map(|(_, p)| p.to_reduced()).collect(),
+        36 => s.residual_chemical_potential_contributions(i).iter().map(|(_, p)| p.to_reduced()).collect(),
+        37 => s.residual_helmholtz_energy_contributions().iter().map(|(_, p)| p.to_reduced()).collect(),
+        38 => s.chemical_potential(c).to_reduced().to_vec(),
+        39 => s.dmu_dt(c).to_reduced().to_vec(),
+        40 => v1(s.molar_isochoric_heat_capacity(c).to_reduced()),
+        41 => v1(s.dc_v_dt(c).to_reduced()),
+        42 => v1(s.molar_isobaric_heat_capacity(c).to_reduced()),
+        43 => v1(s.entropy(c).to_reduced()),
+        44 => v1(s.ds_dt(c).to_reduced()),
+        45 => v1(s.d2s_dt2(c).to_reduced()),
+        46 => v1(s.enthalpy(c).to_reduced()),
+        47 => v1(s.helmholtz_energy(c).to_reduced()),
+        48 => v1(s.internal_energy(c).to_reduced()),
+        49 => v1(s.gibbs_energy(c).to_reduced()),
+        50 => v1(s.joule_thomson().to_reduced()),
+        51 => v1(s.isentropic_compressibility().to_reduced()),
+        52 => v1(s.thermal_expansivity().to_reduced()),
+        53 => v1(s.grueneisen_parameter()),
+        54 => s.partial_molar_entropy().to_reduced().to_vec(),
+        55 => s.partial_molar_enthalpy().to_reduced().to_vec(),
+        56 => s.chemical_potential_contributions(i, c).iter().map(|(_, p)| p.to_reduced()).collect(),
+        57 => v1(s.molar_entropy(c).to_reduced()),
+        58 => v1(s.molar_gibbs_energy(c).to_reduced()),
+        59 => v1(s.isenthalpic_compressibility().to_reduced()),
+        60 => {
+            if !has_mw {
+                return None;
+            }
+            let w = s.speed_of_sound().to_reduced();
+            if !w.is_finite() {
+                return None;
+            }
+            v1(w)
+        }
+        61 => {
+            if !has_mw {
+                return None;
+            }
+            vec![
+                s.specific_enthalpy(c).to_reduced(),
+                s.specific_entropy(c).to_reduced(),
+                s.specific_isobaric_heat_capacity(c).to_reduced(),
+                s.mass_density().to_reduced(),
+            ]
+        }
+        62 => {
+            if !has_transport {
+                return None;
+            }
+            vec![s.viscosity().ok()?.to_reduced(), s.ln_viscosity_reduced().ok()?, s.viscosity_reference().ok()?.to_reduced()]
+        }
+        63 => {
+            if !has_transport {
+                return None;
+            }
+            vec![s.diffusion().ok()?.to_reduced(), s.ln_diffusion_reduced().ok()?]
+        }
+        64 => {
+            if !has_transport {
+                return None;
+            }
+            vec![s.thermal_conductivity().ok()?.to_reduced(), s.ln_thermal_conductivity_reduced().ok()?]
+        }
+        65 => v1(s.residual_molar_entropy().to_reduced()),
+        _ => return None,
+    })
+}
+
+#[derive(Serialize, Deserialize, Clone, Debug, PartialEq)]
+pub enum Op {
+    /// evaluate getter `g` with auxiliary index `aux` on handle `h`
+    Eval { h: usize, g: usize, aux: usize },
+    /// handle `dst` becomes a clone of handle `src`
+    CloneTo { src: usize, dst: usize },
+}
+
+#[derive(Serialize, Deserialize, Clone, Debug)]
+pub struct Case {
+    pub spec: ModelSpec,
+    pub state: StateSpec,
+    pub ig: Vec<usize>,
+    pub ops: Vec<Op>,
+    /// >0: run the per-handle-0 Eval ops on this many real threads sharing one state
+    pub threads: usize,
+}
+
+struct Sys {
+    eos: Arc<FullModel>,
+    inputs: (Temperature, Volume, Moles<ndarray::Array1<f64>>),
+    has_mw: bool,
+    has_transport: bool,
+}
+
+fn build(case: &Case, obs: &mut Obs) -> Option<Sys> {
+    let model = match case.spec.build() {
+        Ok(m) => m,
+        Err(e) => {
+            obs.discard(format!("build:{}", e.chars().take(40).collect::<String>()));
+            return None;
+        }
+    };
+    let inputs = match state_inputs(&case.spec, &model, &case.state) {
+        Ok(i) => i,
+        Err(e) => {
+            obs.discard(format!("inputs:{e}"));
+            return None;
+        }
+    };
+    let ig = dippr_model(&case.ig).ok()?;
+    let has_transport = case.spec.family == Family::PcSaft
+        && case.spec.pure.iter().all(|p| {
+            let m = &p["model_record"];
+            m.get("viscosity").is_some() && m.get("diffusion").is_some() && m.get("thermal_conductivity").is_some()
+        });
+    Some(Sys {
+        has_mw: model.has_molar_weight(),
+        has_transport,
+        eos: full_model(ig, model),
+        inputs,
+    })
+}
+
+fn fresh(sys: &Sys) -> Option<S> {
+    State::new_nvt(&sys.eos, sys.inputs.0, sys.inputs.1, &sys.inputs.2).ok()
+}
+
+/// tolerance: history-dependent by-products differ at 2e-16 relative in the cached value
+/// (Dual64 vs Dual3 arithmetic); composite getters amplify that by their cancellation.
+/// A mis-keyed or stale cache entry gives O(1) errors.
+const RTOL: f64 = 1e-9;
+
+/// relative perturbation of the volume used to measure the conditioning of a getter
+const PERT: f64 = 1e-11;
+/// allowed deviation = RTOL*scale + AMP * |getter(V(1+PERT)) - getter(V)|: by-products differ
+/// by ~2e-16 relative, i.e. PERT/5e4; AMP = 100 leaves a factor ~5e6 between legitimate
+/// noise and the tolerance while a wrong cache entry (O(1) relative error of one derivative)
+/// is only hidden where the getter amplifies input noise by more than ~1e8.
+const AMP: f64 = 100.0;
+
+struct Ref {
+    value: Vec<f64>,
+    sens: Vec<f64>,
+}
+
+fn compare(obs: &mut Obs, what: &str, got: &[f64], reference: &Ref) {
+    obs.count();
+    if got.len() != reference.value.len() {
+        obs.fail(format!("{what}: length {} vs reference {}", got.len(), reference.value.len()));
+        return;
+    }
+    let scale = reference.value.iter().fold(0.0f64, |a, b| a.max(b.abs()));
+    for (k, (u, v)) in got.iter().zip(&reference.value).enumerate() {
+        if u.is_nan() && v.is_nan() {
+            continue;
+        }
+        let tol = RTOL * scale.max(u.abs()) + AMP * reference.sens[k];
+        if !((u - v).abs() <= tol) {
+            obs.fail(format!("{what}[{k}]: {u:e} vs reference {v:e} (fresh state; tolerance {tol:e})"));
+            return;
+        }
+        if tol > 1e-3 * v.abs() && v.abs() > 0.0 {
+            obs.class("ill-conditioned getter value (comparison weak)");
+        }
+    }
+}
+
+pub fn check(case: &Case, obs: &mut Obs) {
+    obs.class(case.spec.label());
+    obs.class(format!("n={}", case.spec.n()));
+    let Some(sys) = build(case, obs) else { return };
+    let Some(s0) = fresh(&sys) else {
+        obs.discard("state");
+        return;
+    };
+    if !s0.residual_helmholtz_energy().to_reduced().is_finite() || !s0.dp_dv(TOT).to_reduced().is_finite() {
+        obs.discard("non-finite");
+        return;
+    }
+    // reference values: every getter on its own fresh state
+    let reference = |g: usize, aux: usize| -> Option<Ref> {
+        let value = eval(&fresh(&sys)?, g, aux, sys.has_mw, sys.has_transport)?;
+        let sp = State::new_nvt(&sys.eos, sys.inputs.0, sys.inputs.1 * (1.0 + PERT), &sys.inputs.2).ok()?;
+        let vp = eval(&sp, g, aux, sys.has_mw, sys.has_transport)?;
+        if vp.len() != value.len() {
+            return None;
+        }
+        // natural scale of getters that vanish by exact cancellation (ideal-gas limit, pure fluids)
+        let s = fresh(&sys)?;
+        let (t, v, ntot, rho) = (s.temperature.to_reduced(), s.volume.to_reduced(), s.total_moles.to_reduced(), s.density.to_reduced());
+        let floor = match g {
+            19 => 2.0 * t / rho,
+            25 => 1.0 / t,
+            26 => 1.0 / s.pressure(TOT).to_reduced().abs(),
+            27 => 1.0 / ntot,
+            28 => 1.0,
+            50 | 59 => v / (ntot * s.molar_isobaric_heat_capacity(TOT).to_reduced().abs()),
+            _ => 0.0,
+        };
+        let sens = value
+            .iter()
+            .zip(&vp)
+            .map(|(a, b)| RTOL * floor / AMP + if (a - b).is_finite() { (a - b).abs() } else { 0.0 })
+            .collect();
+        Some(Ref { value, sens })
+    };
+
+    if case.threads == 0 {
+        // sequential history over up to 3 handles
+        let mut handles: Vec<S> = vec![fresh(&sys).unwrap(), fresh(&sys).unwrap(), fresh(&sys).unwrap()];
+        let mut evaluated = [0usize; 3];
+        let mut order_keys: Vec<usize> = vec![];
+        let mut clone_after_eval = false;
+        for (step, op) in case.ops.iter().enumerate() {
+            match op {
+                Op::Eval { h, g, aux } => {
+                    let h = h % 3;
+                    let Some(r) = reference(*g, *aux) else { continue };
+                    let Some(got) = eval(&handles[h], *g, *aux, sys.has_mw, sys.has_transport) else { continue };
+                    compare(obs, &format!("step {step} getter {g} aux {aux} on handle {h}"), &got, &r);
+                    evaluated[h] += 1;
+                    if h == 0 {
+                        order_keys.push(*g);
+                    }
+                }
+                Op::CloneTo { src, dst } => {
+                    let (src, dst) = (src % 3, dst % 3);
+                    if src != dst {
+                        if evaluated[src] > 0 {
+                            clone_after_eval = true;
+                        }
+                        handles[dst] = handles[src].clone();
+                        evaluated[dst] = evaluated[src];
+                    }
+                }
+            }
+        }
+        // non-trivial: a higher-order key before a lower-order key it produces as by-product,
+        // or a clone after at least one evaluation
+        let rank = |g: usize| match g {
+            0 => 0,
+            1..=3 => 1,
+            4..=9 => 2,
+            10 | 11 => 3,
+            _ => 2,
+        };
+        let higher_first = order_keys.windows(2).any(|w| rank(w[0]) > rank(w[1]))
+            || order_keys.iter().enumerate().any(|(k, g)| order_keys[..k].iter().any(|g0| rank(*g0) > rank(*g)));
+        if higher_first {
+            obs.class("higher-order before lower-order");
+        }
+        if clone_after_eval {
+            obs.class("clone after evaluation");
+        }
+        if higher_first || clone_after_eval {
+            obs.nontrivial();
+        }
+        obs.class(format!("len<={}", ((case.ops.len() + 9) / 10) * 10));
+    } else {
+        // real threads sharing one state: every thread runs the Eval ops assigned to it
+        let k = case.threads.clamp(2, 16);
+        obs.class(format!("threads={k}"));
+        let evals: Vec<(usize, usize, usize)> = case
+            .ops
+            .iter()
+            .filter_map(|o| match o {
+                Op::Eval { h, g, aux } => Some((*h, *g, *aux)),
+                _ => None,
+            })
+            .collect();
+        let refs: Vec<Option<Ref>> = evals.iter().map(|(_, g, aux)| reference(*g, *aux)).collect();
+        let reps = 5;
+        for rep in 0..reps {
+            let shared = Arc::new(fresh(&sys).unwrap());
+            let barrier = Arc::new(Barrier::new(k));
+            let results: Vec<Vec<(usize, Option<Vec<f64>>)>> = std::thread::scope(|scope| {
+                let hs: Vec<_> = (0..k)
+                    .map(|tid| {
+                        let shared = shared.clone();
+                        let barrier = barrier.clone();
+                        let evals = &evals;
+                        let (mw, tr) = (sys.has_mw, sys.has_transport);
+                        scope.spawn(move || {
+                            barrier.wait();
+                            let mut out = vec![];
+                            for (idx, (h, g, aux)) in evals.iter().enumerate() {
+                                if h % k == tid {
+                                    out.push((idx, eval(&shared, *g, *aux, mw, tr)));
+                                }
+                            }
+                            out
+                        })
+                    })
+                    .collect();
+                hs.into_iter().map(|h| h.join().unwrap_or_default()).collect()
+            });
+            for (idx, got) in results.into_iter().flatten() {
+                if let (Some(got), Some(r)) = (got, &refs[idx]) {
+                    compare(obs, &format!("threaded rep {rep} getter {} aux {}", evals[idx].1, evals[idx].2), &got, r);
+                }
+            }
+        }
+        if evals.len() >= 2 * k {
+            obs.nontrivial();
+        }
+    }
+}
+
+// ---------------------------------------------------------------------------------------
+fn fixed_systems() -> Vec<(ModelSpec, StateSpec)> {
+    let find = |file: &str, name: &str| -> Value {
+        POOLS
+            .pcsaft
+            .iter()
+            .find(|(f, _)| *f == file)
+            .unwrap()
+            .1
+            .iter()
+            .find(|r| r["identifier"]["name"].as_str() == Some(name))
+            .unwrap_or_else(|| panic!("record {name} in {file}"))
+            .clone()
+    };
+    let mk = |family: Family, pure: Vec<Value>, binary: Vec<(usize, usize, Value)>, seg: Option<(String, Option<String>)>, source: &str| ModelSpec {
+        family,
+        pure,
+        binary,
+        seg,
+        opts: Opts::default(),
+        source: source.into(),
+    };
+    let st = |tau: f64, f_eta: f64, x: Vec<f64>| StateSpec {
+        tau,
+        f_eta,
+        x,
+        lambda: 1.7,
+    };
+    let gc = |name: &str| -> Value {
+        POOLS
+            .gc_substances
+            .iter()
+            .find(|r| r["identifier"]["name"].as_str() == Some(name))
+            .unwrap()
+            .clone()
+    };
+    vec![
+        // cross-associating binary (iterative association solver), liquid-like
+        (
+            mk(Family::PcSaft, vec![find("gross2002.json", "methanol"), find("gross2002.json", "1-propanol")], vec![(0, 1, json!({"k_ij": 0.02}))], None, "fixed:methanol/1-propanol"),
+            st(0.7, 0.75, vec![0.3, 0.7]),
+        ),
+        // polar binary, gas-like
+        (
+            mk(Family::PcSaft, vec![find("gross2006.json", "acetone"), find("gross2005_fit.json", "carbon dioxide")], vec![(0, 1, json!({"k_ij": -0.03}))], None, "fixed:acetone/co2"),
+            st(1.1, 0.15, vec![0.6, 0.4]),
+        ),
+        // cubic
+        (
+            mk(
+                Family::PengRobinson,
+                vec![
+                    json!({"identifier": {"name": "a"}, "molarweight": 44.0, "model_record": {"tc": 369.8, "pc": 4.25e6, "acentric_factor": 0.153}}),
+                    json!({"identifier": {"name": "b"}, "molarweight": 58.0, "model_record": {"tc": 425.2, "pc": 3.8e6, "acentric_factor": 0.199}}),
+                ],
+                vec![(0, 1, json!(0.01))],
+                None,
+                "fixed:PR propane/butane",
+            ),
+            st(0.8, 0.7, vec![0.45, 0.55]),
+        ),
+        // heterosegmented GC model with association
+        (
+            mk(Family::GcPcSaft, vec![gc("propane"), gc("ethanol")], vec![], Some(("sauer2014_hetero.json".into(), None)), "fixed:gc propane/ethanol"),
+            st(0.75, 0.7, vec![0.5, 0.5]),
+        ),
+        // pure substance with entropy-scaling coefficients (transport getters)
+        (
+            mk(Family::PcSaft, vec![transport_record()], vec![], None, "fixed:transport"),
+            st(0.8, 0.7, vec![1.0]),
+        ),
+    ]
+}
+
+fn transport_record() -> Value {
+    // first loetgeringlin2018 record, completed with diffusion / thermal conductivity coefficients
+    let mut r = POOLS.pcsaft.iter().find(|(f, _)| *f == "loetgeringlin2018.json").unwrap().1[0].clone();
+    r["model_record"]["diffusion"] = json!([-0.2, -0.4, -0.01, 0.001, 0.0]);
+    r["model_record"]["thermal_conductivity"] = json!([-0.1, 0.5, -0.2, 0.01]);
+    r
+}
+
+fn lattice_cases(maxlen: usize) -> Vec<Case> {
+    let mut out = vec![];
+    for (spec, state) in fixed_systems() {
+        let n = spec.n();
+        let ig: Vec<usize> = (0..n).map(|i| 3 + 7 * i).collect();
+        let mut seqs: Vec<Vec<usize>> = vec![vec![]];
+        let mut all: Vec<Vec<usize>> = vec![];
+        for _ in 0..maxlen {
+            let mut next = vec![];
+            for s in &seqs {
+                for g in ATOMIC {
+                    let mut t = s.clone();
+                    t.push(g);
+                    next.push(t);
+                }
+            }
+            all.extend(next.iter().cloned());
+            seqs = next;
+        }
+        for seq in all {
+            out.push(Case {
+                spec: spec.clone(),
+                state: state.clone(),
+                ig: ig.clone(),
+                ops: seq.iter().map(|g| Op::Eval { h: 0, g: *g, aux: 0 }).collect(),
+                threads: 0,
+            });
+        }
+    }
+    out
+}
+
+fn gen_ops(g: &mut Gen, maxlen: usize, with_clone: bool) -> Vec<Op> {
+    let len = 1 + g.index(maxlen);
+    (0..len)
+        .map(|_| {
+            if with_clone && g.bool(0.15) {
+                Op::CloneTo {
+                    src: g.index(3),
+                    dst: g.index(3),
+                }
+            } else {
+                // half of the evaluations use the atomic getters (pure cache-key traffic)
+                let gi = if g.bool(0.5) { g.index(N_GETTERS) } else { ATOMIC[g.index(12)] };
+                Op::Eval {
+                    h: g.index(3),
+                    g: gi,
+                    aux: g.index(6),
+                }
+            }
+        })
+        .collect()
+}
+
+fn gen_sys(g: &mut Gen) -> (ModelSpec, StateSpec, Vec<usize>) {
+    // half fixed systems (well-conditioned, asymmetric), half the whole zoo
+    let (spec, mut state) = if g.bool(0.5) {
+        let spec = gen_model(g, &GenCfg::all(3));
+        let st = gen_state(g, spec.n());
+        (spec, st)
+    } else {
+        let f = fixed_systems();
+        let (spec, mut st) = f[g.index(f.len())].clone();
+        st.tau = g.range(0.6, 1.5);
+        st.f_eta = g.range(0.05, 0.8);
+        (spec, st)
+    };
+    // keep away from the dilute end: there the residual Helmholtz energy of the chain
+    // functionals is a 1e-7 remainder of cancelling contributions (1 ulp of those = 1e-9 of A),
+    // and getters are compared with rtol 1e-9. The cache mechanism does not depend on the state.
+    state.f_eta = state.f_eta.max(0.02);
+    let ig = (0..spec.n()).map(|_| g.index(POOLS.dippr.len())).collect();
+    (spec, state, ig)
+}
+
+pub fn decode_history(g: &mut Gen) -> Case {
+    let (spec, state, ig) = gen_sys(g);
+    Case {
+        spec,
+        state,
+        ig,
+        ops: gen_ops(g, 50, true),
+        threads: 0,
+    }
+}
+
+pub fn decode_threads(g: &mut Gen) -> Case {
+    let (spec, state, ig) = gen_sys(g);
+    let threads = 2 + g.index(15);
+    Case {
+        spec,
+        state,
+        ig,
+        ops: gen_ops(g, 50, false),
+        threads,
+    }
+}
+
+// ---------------------------------------------------------------------------------------
+// par_pure vs pure
+#[derive(Serialize, Deserialize, Clone, Debug)]
+pub struct ParCase {
+    pub file: usize,
+    pub record: usize,
+    pub tmin_red: f64,
+    pub npoints: usize,
+    pub chunksize: usize,
+    pub threads: Vec<usize>,
+}
+
+pub fn decode_par(g: &mut Gen) -> ParCase {
+    // Gross-Sadowski collections (non-associating, associating, polar): C04's success domain
+    let file = g.index(5);
+    let record = g.index(POOLS.pcsaft[file].1.len());
+    let npoints = 3 + g.index(198);
+    let chunksize = 1 + g.index(npoints);
+    let pool = [1usize, 2, 3, 4, 8, 16];
+    let t1 = pool[g.index(6)];
+    let t2 = pool[g.index(6)];
+    ParCase {
+        file,
+        record,
+        tmin_red: g.range(0.45, 0.9),
+        npoints,
+        chunksize,
+        threads: vec![t1, t2],
+    }
+}
+
+pub fn check_par(case: &ParCase, obs: &mut Obs) {
+    let rec = POOLS.pcsaft[case.file].1[case.record].clone();
+    let spec = ModelSpec {
+        family: Family::PcSaft,
+        pure: vec![rec],
+        binary: vec![],
+        seg: None,
+        opts: Opts::default(),
+        source: format!("shipped:{}", POOLS.pcsaft[case.file].0),
+    };
+    obs.class(spec.source.clone());
+    let Ok(model) = spec.build() else {
+        obs.discard("build");
+        return;
+    };
+    let tc = pure_tc(&spec, &model, 0);
+    let tmin = case.tmin_red * tc * KELVIN;
+    let seq = match PhaseDiagram::pure(&model, tmin, case.npoints, None, SolverOptions::default()) {
+        Ok(d) => d,
+        Err(e) => {
+            obs.discard(format!("sequential diagram failed: {e}"));
+            return;
+        }
+    };
+    let sig = |d: &PhaseDiagram<Model, 2>| -> Vec<[f64; 4]> {
+        d.states
+            .iter()
+            .map(|s| {
+                [
+                    s.vapor().temperature.to_reduced(),
+                    s.vapor().density.to_reduced(),
+                    s.liquid().density.to_reduced(),
+                    s.vapor().pressure(Contributions::Total).to_reduced(),
+                ]
+            })
+            .collect()
+    };
+    let a = sig(&seq);
+    let mut pars = vec![];
+    for &k in &case.threads {
+        let pool = rayon::ThreadPoolBuilder::new().num_threads(k).build().unwrap();
+        match PhaseDiagram::par_pure(&model, tmin, case.npoints, case.chunksize, pool, None, SolverOptions::default()) {
+            Ok(d) => pars.push((k, sig(&d))),
+            Err(e) => {
+                obs.fail(format!("par_pure failed where pure succeeded: {e}"));
+                return;
+            }
+        }
+    }
+    for (k, b) in &pars {
+        obs.count();
+        if b.len() != a.len() {
+            obs.fail(format!("par_pure({k} threads, chunksize {}) returns {} states, pure returns {}", case.chunksize, b.len(), a.len()));
+            continue;
+        }
+        for (idx, (u, v)) in a.iter().zip(b).enumerate() {
+            // same temperatures in the same order; densities and pressure to solver tolerance
+            obs.close(&format!("T[{idx}] ({k} threads)"), u[0], v[0], 1e-13, 0.0);
+            obs.close(&format!("rho_v[{idx}] ({k} threads)"), u[1], v[1], 1e-8, 0.0);
+            obs.close(&format!("rho_l[{idx}] ({k} threads)"), u[2], v[2], 1e-8, 0.0);
+            obs.close(&format!("p[{idx}] ({k} threads)"), u[3], v[3], 1e-8, 0.0);
+        }
+    }
+    if pars.len() == 2 && pars[0].1.len() == pars[1].1.len() {
+        // same chunksize, different pool sizes: identical work per chunk => identical numbers
+        for (idx, (u, v)) in pars[0].1.iter().zip(&pars[1].1).enumerate() {
+            for q in 0..4 {
+                obs.close(&format!("pool-size independence [{idx}][{q}]"), u[q], v[q], 1e-13, 0.0);
+            }
+        }
+    }
+    if a.len() == case.npoints {
+        obs.class("all points converged");
+    }
+    if case.chunksize < case.npoints - 1 && case.threads.iter().any(|&k| k > 1) {
+        obs.nontrivial();
+        obs.class("multi-chunk");
+    }
+}
+
+const HIST: PartCfg = PartCfg {
+    name: "history",
+    genome_len: 260,
+    cases_quick: 6000,
+    cases_thorough: 600_000,
+    panic: PanicPolicy::Count,
+};
+const THREADS: PartCfg = PartCfg {
+    name: "threads",
+    genome_len: 260,
+    cases_quick: 96,
+    cases_thorough: 20_000,
+    panic: PanicPolicy::Count,
+};
+const PAR: PartCfg = PartCfg {
+    name: "par_pure",
+    genome_len: 12,
+    cases_quick: 300,
+    cases_thorough: 20_000,
+    panic: PanicPolicy::Count,
+};
+
+pub fn run(ctx: &Ctx) {
+    ctx.set_rule("lattice: EXHAUSTIVE enumeration of all sequences of the 12 atomic getters (one per cache-key class: Zeroth, First(DV|DT|DN), Second(DV|DT), Mixed(DV,DT|DV,DN|DT,DN|DN,DN), Third(DV|DT)) up to length 2 (quick) / 3 (thorough) on 5 fixed systems (cross-associating, polar, cubic, group-contribution, transport). history: proptest-generated operation sequences (length 1-50) over 66 getters x selector/index arguments and clone operations on 3 state handles, on fixed systems and the whole model zoo. threads: the same sequences distributed over 2-16 real threads sharing one state (barrier start, 5 repetitions). par_pure: (record of the Gross-Sadowski PC-SAFT collections, T_min/T_c, npoints in [3,200], chunksize in [1,npoints], two pool sizes from {1,2,3,4,8,16}). Oracle: each returned value equals the value of the same getter on its own fresh state (rtol 1e-9 of the largest component plus 100x the change of the getter under a 1e-11 relative volume perturbation, which measures its conditioning). Non-trivial: a higher-order cache key evaluated before a lower-order one it produces as by-product, or a clone after an evaluation; threads: at least 2 evaluations per thread; par_pure: more than one chunk on more than one thread.");
+    ctx.assume("by-products cached from different dual-number types differ at 2e-16; composite getters amplify this, hence rtol 1e-9 (a mis-keyed or stale entry gives O(1) errors); states with f_eta < 0.02 are not used here (cancellation between contributions makes A_res itself only 1e-9 accurate there)");
+    ctx.assume("thread schedules: lookup+compute happen under one Mutex lock, so any concurrent execution is equivalent to an interleaving of whole getter calls; real-thread runs are a stress supplement, not an enumeration of interleavings");
+    ctx.assume("par_pure vs pure: chunks restart without the previous point's guess, so densities/pressures are compared to 1e-8 (solver tolerance), temperatures and pool-size independence to 1e-13");
+    let maxlen = ctx.pick(2, 3);
+    ctx.run_lattice("lattice", lattice_cases(maxlen), PanicPolicy::Count, true, &check);
+    ctx.run_sampled(&HIST, &decode_history, &check);
+    ctx.run_sampled(&THREADS, &decode_threads, &check);
+    ctx.run_sampled(&PAR, &decode_par, &check_par);
+}
+
+pub fn replay(ctx: &Ctx, part: &str, case: &Value) -> bool {
+    match part {
+        "par_pure" => ctx.replay_case::<ParCase>(case, &check_par),
+        _ => ctx.replay_case::<Case>(case, &check),
+    }
 }
